@@ -55,6 +55,16 @@ func check(c Case) (o ev.Outcome) {
 		o.OutOfClaim = "base set has problems by the reference (harness)"
 		return
 	}
+	for _, m := range c.Set.Modules {
+		for _, d := range m.Deviations {
+			if x := r.ResolvePath(trees, m, d.Path); x != nil {
+				o.Class("target/" + x.Kind)
+				if strings.Contains(d.Path, ":input") || strings.Contains(d.Path, ":output") || x.Kind == ymodel.KNotification {
+					o.Class("target-in-operation")
+				}
+			}
+		}
+	}
 	r.ApplyDeviations(trees, c.Ignore)
 	n, multi, kinds := deviationStats(c.Set)
 	for k := range kinds {
@@ -220,7 +230,7 @@ func gen(t *rapid.T) Case {
 	schema.AddAugments(t, set, 0, 2)
 	c := Case{Set: set, Repeats: 6}
 	c.Ignore = rapid.IntRange(0, 3).Draw(t, "ignore-not-supported") == 0
-	schema.AddDeviations(t, set, schema.DevOpts{Modules: rapid.IntRange(1, 2).Draw(t, "deviating-modules"), Max: 5, NotSupported: true})
+	schema.AddDeviations(t, set, schema.DevOpts{Modules: rapid.IntRange(1, 2).Draw(t, "deviating-modules"), Max: 5, NotSupported: true, Operations: true})
 	if rapid.IntRange(0, 3).Draw(t, "plant") == 0 {
 		c.Fault = plant(t, set)
 	}
@@ -234,12 +244,12 @@ func TestCheck(t *testing.T) {
 	ev.Run(t, ev.Spec[Case]{
 		ID:    "C08",
 		Level: "exploration",
-		Rule: "a base set from the schema model (optionally with augments) plus 1-2 deviating modules with 1-5 deviations each: every deviate kind and every property the claim lists (config, default, mandatory, min/max-elements, units, type), 1-3 deviate statements per deviation drawn so that each is applicable to the node as the previous ones left it (add what is absent, replace/delete what is present and equal), targets that are leaves, leaf-lists, lists, containers, choices, also copies made by uses and nodes grafted by augments; a second module may deviate other properties of the same node; both settings of the ignore-not-supported option; model or permuted load order; every case is run 6 times in fresh module sets (the runtime re-randomises the iteration order of the map of deviate kinds). One quarter of the cases plant exactly one inapplicable deviation of each class the property lists. " +
+		Rule: "a base set from the schema model (optionally with augments) plus 1-2 deviating modules with 1-5 deviations each: every deviate kind and every property the claim lists (config, default, mandatory, min/max-elements, units, type), 1-3 deviate statements per deviation drawn so that each is applicable to the node as the previous ones left it (add what is absent, replace/delete what is present and equal), targets that are leaves, leaf-lists, lists, containers, choices (in the data tree and below rpc/action input/output and notifications, there without config), and for not-supported also cases, anydata/anyxml, rpcs, actions, notifications and written input/output nodes; also copies made by uses and nodes grafted by augments; a second module may deviate other properties of the same node; both settings of the ignore-not-supported option; model or permuted load order; every case is run 6 times in fresh module sets (the runtime re-randomises the iteration order of the map of deviate kinds). One quarter of the cases plant exactly one inapplicable deviation of each class the property lists. " +
 			"Oracle: reference application of RFC 7950 7.20.3 in written order on the expanded model; every module tree must equal it completely (so every node no deviation targets equals what the modules yield without the deviating module), applicable deviations must not be rejected, planted inapplicable ones must produce an error. " +
 			"Non-trivial = at least one deviation; distinct by (set, order, option)",
 		Assumptions: []string{
 			"not generated (outside the claim): must/unique deviations; delete of a default on a leaf-list; add of an existing or replace of an absent config/mandatory/units; delete of min-elements 0 / max-elements unbounded on a node that has none; two modules deviating the same property of one node (no written order exists between modules)",
-			"deviation targets are kept in the data tree (not below rpc/action/notification)",
+			"an unwritten rpc/action input or output is not used as a deviation target",
 		},
 		Check: check,
 		Gen:   gen,
